@@ -5,6 +5,7 @@ import (
 	"fmt"
 	"regexp"
 	"slices"
+	"sync"
 )
 
 type ImportFunc func(*regexp.Regexp, string) (*BMNumber, error)
@@ -33,6 +34,10 @@ type BMNumber struct {
 
 var AllTypes []BMNumberType
 var AllMatchers map[string]ImportFunc
+
+// registryMutex protects AllTypes, AllMatchers: types are registered on demand (EventuallyCreateType)
+// also by concurrent users of the package, for example simulations running in parallel
+var registryMutex sync.RWMutex
 var AllDynamicalTypes []DynamicalType
 
 func init() {
@@ -67,12 +72,16 @@ func init() {
 }
 
 func ListTypes() {
+	registryMutex.RLock()
+	defer registryMutex.RUnlock()
 	for _, t := range AllTypes {
 		fmt.Println(t.GetName())
 	}
 }
 
 func GetType(name string) BMNumberType {
+	registryMutex.RLock()
+	defer registryMutex.RUnlock()
 	for _, t := range AllTypes {
 		if t.GetName() == name {
 			return t
